@@ -81,6 +81,45 @@ Theorem C17_destrules_order :
 Proof. exact destrules_order. Qed.
 Print Assumptions C17_destrules_order.
 
+(* ---- call sites: which Sidecar governs a workload (initSidecarScopes + getSidecarScope), and the
+   per-namespace order of AuthorizationPolicy / Telemetry / RequestAuthentication / PeerAuthentication *)
+
+(* the ordered Sidecar list (selector-bearing first, each group by creation time, name, namespace) and the
+   Sidecar chosen for any workload do not depend on the store's listing order nor on the sorting algorithm,
+   given (namespace, name) uniqueness *)
+Theorem C17_sidecars_order :
+  forall l l' o o', Permutation l l' -> cfg_key_unique l ->
+    sortedb cfg_cmp o = true -> Permutation o l ->
+    sortedb cfg_cmp o' = true -> Permutation o' l' ->
+    sidecar_partition o = sidecar_partition o' /\
+    sidecar_partition o = sidecar_order l /\
+    forall pns root ms, choose_in pns root ms (sidecar_partition o) = choose_in pns root ms (sidecar_partition o').
+Proof. exact sidecars_order. Qed.
+Print Assumptions C17_sidecars_order.
+
+Theorem C17_sidecar_choice_order :
+  forall l l' pns root ms, Permutation l l' -> cfg_key_unique l ->
+    choose_sidecar pns root ms l = choose_sidecar pns root ms l'.
+Proof. exact sidecar_choice_order. Qed.
+Print Assumptions C17_sidecar_choice_order.
+
+(* the name/namespace tie-break is what makes it so: ordering on (selector, creation time) alone lets two
+   equal-age Sidecars of one namespace that both match swap with the listing order *)
+Theorem C17_sidecar_weak_rule_order_dependent :
+  exists l l', Permutation l l' /\ cfg_key_unique l /\
+    choose_in "app" "istio-system" [1%N; 2%N] (isort weak_sidecar_cmp l) <>
+    choose_in "app" "istio-system" [1%N; 2%N] (isort weak_sidecar_cmp l').
+Proof. exact weak_sidecar_rule_order_dependent. Qed.
+Print Assumptions C17_sidecar_weak_rule_order_dependent.
+
+Theorem C17_policies_order :
+  forall kind nss l l' o o', Permutation l l' -> cfg_key_unique l ->
+    sortedb cfg_cmp o = true -> Permutation o l ->
+    sortedb cfg_cmp o' = true -> Permutation o' l' ->
+    callsite_in kind nss o = callsite_in kind nss o' /\ callsite_in kind nss o = callsite_order kind nss l.
+Proof. exact callsite_order_inv. Qed.
+Print Assumptions C17_policies_order.
+
 (* the uniqueness hypothesis is needed (not reachable from one store of one kind) *)
 Theorem C17_configs_ties_order_dependent :
   exists l l', Permutation l l' /\ sort_configs l <> sort_configs l'.
